@@ -156,16 +156,19 @@ def run(ctx: Ctx):
     col1 = [k for k, v in roles.items() if v == "col1"]
     ctx.extra["restraint_columns"] = roles
     from ..util import persistent_state
-    persistent_state(ctx, "R8.4", [f_ for f_ in (ctx.repo.func(q_, required=False) for q_ in ('Chi2Calculator.__init__', 'Chi2Calculator.chi2_molecules', 'Chi2Calculator._chi2_molecules_with_restrains', 'Chi2Calculator._chi2_molecules_only_restrains', 'Chi2Calculator._chi2_molecules_restrains_contrib')) if f_ is not None], "the overlap measure")
+    ctx.attempt("R8.4", lambda: persistent_state(ctx, "R8.4", [f_ for f_ in (ctx.repo.func(q_, required=False) for q_ in ('Chi2Calculator.__init__', 'Chi2Calculator.chi2_molecules', 'Chi2Calculator._chi2_molecules_with_restrains', 'Chi2Calculator._chi2_molecules_only_restrains', 'Chi2Calculator._chi2_molecules_restrains_contrib')) if f_ is not None], "the overlap measure"))
 
     # R8.1: the mobile parameter of the constructor flows only into len()
     uses = [n for n in ast.walk(init.node) if isinstance(n, ast.Name) and n.id == p_mobile and isinstance(n.ctx, ast.Load)]
     pm = parents_map(init.node)
     bad = [n for n in uses if not (isinstance(pm.get(id(n)), ast.Call) and call_name(pm[id(n)]) == "len")]
-    ctx.ob("R8.1", init, "uses of the construction-time mobile array `%s`: %d, other than len(): %d" % (p_mobile, len(uses), len(bad)),
+    ctx.attempt("R8.1", lambda: ctx.ob("R8.1", init, "uses of the construction-time mobile array `%s`: %d, other than len(): %d" % (p_mobile, len(uses), len(bad)),
            not bad, "nothing computed from the construction-time mobile coordinates is stored; only their count is"
            + ("" if not bad else " -- `%s` at line %d" % (norm(pm.get(id(bad[0]), bad[0]))[:60], bad[0].lineno)),
-           node=bad[0] if bad else init.node)
+           node=bad[0] if bad else init.node))
+
+
+
     # evaluation methods read the mobile coordinates from their argument
     eval_methods = {}
     for nm, g in cls.methods.items():
@@ -194,8 +197,9 @@ def run(ctx: Ctx):
         sel_attr = "self._meth_to_call"
     okc = len(rets) == 1 and isinstance(rets[0].value, ast.Call) and attr_chain(rets[0].value.func) == sel_attr \
         and len(rets[0].value.args) == 1 and len(cparams) == 1 and _same_array(rets[0].value.args[0], cparams[0])
-    ctx.ob("R8.1", call, rets[0] if rets else "__call__", okc,
-           "a call evaluates the selected method on the array it is given", node=rets[0] if rets else call.node)
+    ctx.attempt("R8.1", lambda: ctx.ob("R8.1", call, rets[0] if rets else "__call__", okc,
+           "a call evaluates the selected method on the array it is given", node=rets[0] if rets else call.node))
+
 
     for k in col0:
         lenv[k] = ast.Name("R1", ast.Load())
@@ -251,12 +255,16 @@ def run(ctx: Ctx):
     fx_r = next((v_ for v_ in vals_.values() if v_ == "FIXED[R1]"), None)
     fx_u = next((v_ for v_ in vals_.values() if v_ == "FIXED[MASK]"), None)
     other_fx = sorted(v_ for v_ in vals_.values() if v_.startswith("FIXED[") and v_ not in ("FIXED[R1]", "FIXED[MASK]"))
-    ctx.ob("R8.2", init, "fixed restrained = %s ; fixed unrestrained = %s%s" % (fx_r, fx_u, (" ; other: %s" % other_fx) if other_fx else ""),
+    ctx.attempt("R8.2", lambda: ctx.ob("R8.2", init, "fixed restrained = %s ; fixed unrestrained = %s%s" % (fx_r, fx_u, (" ; other: %s" % other_fx) if other_fx else ""),
            fx_r == "FIXED[R1]" and fx_u == "FIXED[MASK]" and not other_fx,
-           "restrained fixed atoms are the fixed array indexed by column 0; unrestrained ones by the mask", node=init.node)
-    ctx.ob("R8.2", init, "set of restrained mobile atoms = %s" % norm(aenv.get("self.set_restriction2", ast.Constant(None))),
+           "restrained fixed atoms are the fixed array indexed by column 0; unrestrained ones by the mask", node=init.node))
+
+
+    ctx.attempt("R8.2", lambda: ctx.ob("R8.2", init, "set of restrained mobile atoms = %s" % norm(aenv.get("self.set_restriction2", ast.Constant(None))),
            norm(aenv.get("self.set_restriction2", ast.Constant(None))) == "set(R2)",
-           "the restrained mobile set is built from column 1", node=init.node)
+           "the restrained mobile set is built from column 1", node=init.node))
+
+
 
     # ------------------------------------------------------------------ closed forms
     forms: Dict[str, ast.AST] = {}
@@ -305,8 +313,9 @@ def run(ctx: Ctx):
     ctx.extra["dispatch"] = disp
     # R8.3
     paths_ok = None not in disp and len(disp) == 3
-    ctx.ob("R8.3", init, "constructor paths -> method: %s" % {k: len(v) for k, v in disp.items()}, paths_ok,
-           "every constructor path selects exactly one evaluation method, and three methods are in use", node=init.node)
+    ctx.attempt("R8.3", lambda: ctx.ob("R8.3", init, "constructor paths -> method: %s" % {k: len(v) for k, v in disp.items()}, paths_ok,
+           "every constructor path selects exactly one evaluation method, and three methods are in use", node=init.node))
+
     sel_none = sel_only = sel_with = None
     empty_forms = {ctext(x % {"r": p_restr}) for x in ("%(r)s is None or len(%(r)s) == 0", "not %(r)s", "%(r)s is None or not %(r)s",
                                                         "%(r)s is None or len(%(r)s) < 1", "len(%(r)s) == 0 or %(r)s is None")}
@@ -322,10 +331,13 @@ def run(ctx: Ctx):
                 sel_only = m
             elif (anyt, True) in cs:
                 sel_with = m
-    ctx.ob("R8.3", init, "no restraints -> %s ; all fixed restrained -> %s ; otherwise -> %s" % (sel_none, sel_only, sel_with),
+    ctx.attempt("R8.3", lambda: ctx.ob("R8.3", init, "no restraints -> %s ; all fixed restrained -> %s ; otherwise -> %s" % (sel_none, sel_only, sel_with),
            None not in (sel_none, sel_only, sel_with) and len({sel_none, sel_only, sel_with}) == 3,
            "the three cases (no restraints / every fixed atom restrained / some unrestrained fixed atom) are mutually "
-           "exclusive, cover everything and use different methods", node=init.node)
+           "exclusive, cover everything and use different methods", node=init.node))
+
+
+
 
     # ------------------------------------------------------------------ R8.2 matching
     def analyse(name: str, want_restr: bool, want_nn: bool, nn_fixed: str, uset: str):
@@ -414,8 +426,9 @@ def run(ctx: Ctx):
                "k = number of mobile atoms minus |%s|" % uset.split(" || ")[0].replace("DIST", "D"), node=g.node,
                n=ntxt, used=utxt)
 
-    analyse(sel_none or "chi2_molecules", False, True, "FIXED", "set(DIST.argmin(axis=1))")
-    analyse(sel_with or "_chi2_molecules_with_restrains", True, True, "FIXED[MASK]",
-            "set(R2).union(DIST.argmin(axis=1)) || set(R2) | set(DIST.argmin(axis=1))")
-    analyse(sel_only or "_chi2_molecules_only_restrains", True, False, "", "set(R2)")
+    ctx.attempt("R8.2", lambda: analyse(sel_none or "chi2_molecules", False, True, "FIXED", "set(DIST.argmin(axis=1))"))
+    ctx.attempt("R8.2", lambda: analyse(sel_with or "_chi2_molecules_with_restrains", True, True, "FIXED[MASK]",
+            "set(R2).union(DIST.argmin(axis=1)) || set(R2) | set(DIST.argmin(axis=1))"))
+
+    ctx.attempt("R8.2", lambda: analyse(sel_only or "_chi2_molecules_only_restrains", True, False, "", "set(R2)"))
     ctx.floor("R8.2", sum(1 for o in ctx.obligations if o.rule == "R8.2"), 8, "closed-form components matched")
